@@ -75,6 +75,59 @@ def lock_decl_index(prog, f):
     return None, None, None
 
 
+def lock_types(prog):
+    """record types whose construction reaches SimpleMutex::Lock and whose destruction reaches SimpleMutex::Unlock"""
+    out = set()
+    for cls in prog.records:
+        cts = [f for f in prog.methods_of(cls) if f.kind == "ctor"]
+        if cts and any(ctor_reaches(prog, c.mn, "SimpleMutex::Lock") for c in cts) and dtor_reaches(prog, cls, "SimpleMutex::Unlock"):
+            out.add(cls)
+    return out
+
+
+def slot_fold(prog, f, alloc_answer=70000):
+    """Fold a function stored in an allocation slot against recording stubs of the detector. Returns the chronological
+    list of events: ("lock", type, frame) | ("leave", frame) | ("getter", name, locked) | ("detector", method, args, locked),
+    where `locked` says whether an RAII lock object constructed in a frame that has not returned yet is alive."""
+    from cpv.ceval import Evaluator, Unknown
+    LT = lock_types(prog)
+    GETTERS = {"getCurrentNewAllocator": 101, "getCurrentNewArrayAllocator": 102, "getCurrentMallocAllocator": 103}
+    hooks = {"MemoryLeakWarningPlugin::getGlobalDetector": lambda *a_: 555}
+    for g, v in GETTERS.items():
+        hooks[g] = (lambda *a_, v=v: v)
+    for m in ("allocMemory", "deallocMemory", "reallocMemory", "invalidateMemory"):
+        hooks["MemoryLeakDetector::" + m] = (lambda *a_, m=m: alloc_answer if m in ("allocMemory", "reallocMemory") else 0)
+    for lt in LT | {"ScopedMutexLock"}:
+        pass
+    env = {}
+    for i_, q in enumerate(f.params):
+        env[q["name"]] = 7000 + i_
+    ev = Evaluator(prog, f, env=env, calls=hooks)
+    ev.pass_object = True
+    end = "return"
+    try:
+        e_, _ = ev.run_blocks(f.entry, max_steps=800)
+        end = "throw" if e_ == "throw" else "return"
+    except Unknown as u:
+        raise
+    events, frames, live = [], ["<self>"], []
+    for nm, args, node in ev.trace:
+        if nm.startswith("enter "):
+            frames.append(nm[6:])
+        elif nm.startswith("leave "):
+            fr = frames.pop() if len(frames) > 1 else None
+            live = [x for x in live if x[1] != len(frames) + 1]
+            events.append(("leave", fr))
+        elif nm.startswith("construct ") and nm[len("construct "):] in LT:
+            live.append((nm[len("construct "):], len(frames)))
+            events.append(("lock", nm[len("construct "):], frames[-1]))
+        elif nm in GETTERS:
+            events.append(("getter", nm, bool(live)))
+        elif nm.startswith("MemoryLeakDetector::") and nm.split("::")[-1] in ("allocMemory", "deallocMemory", "reallocMemory", "invalidateMemory"):
+            events.append(("detector", nm.split("::")[-1], tuple(args[1:]) if args else (), bool(live)))
+    return events, getattr(ev, "ret", None), end, env
+
+
 def slot_switch_rules(prog, run, rid):
     """WHO/SIBLING over the switch functions (shared by C10.R1 and C04.R8). Returns (slots, saved slots, stored map)."""
     slots = [s for s in slot_vars(prog) if not s.startswith("saved_")]
@@ -163,7 +216,7 @@ def check(ctx, run):
     run.rule("R1", "WHO/SIBLING: every switch function (thread-safe, default, off, save, restore) assigns each of the function-pointer slots exactly once on every active path", floor=55)
     run.rule("R2", "SIBLING: the function the thread-safe switch stores in a slot = the default function of that slot + one leading RAII lock declaration that precedes every other statement", floor=11)
     run.rule("R3", "ORDER/TABLE: the RAII lock takes the global detector's mutex; Lock/Unlock pair once each; the platform slots reach pthread_mutex_*", floor=12)
-    run.rule("R4", "REACH: no call path from a function that holds the RAII lock reaches longjmp (throw is allowed: unwinding releases)", floor=11)
+    run.rule("R4", "REACH: per allocation slot, no call path from the function that holds the RAII lock for its thread-safe variant reaches longjmp (throw is allowed: unwinding releases)", floor=11)
 
     slots = [s for s in slot_vars(prog) if not s.startswith("saved_")]
     saved = [s for s in slot_vars(prog) if s.startswith("saved_")]
@@ -174,6 +227,8 @@ def check(ctx, run):
 
     # ---------------- R2 --------------------------------------------------
     locked_fns = []
+    LT = lock_types(prog)
+    run.ob("R2", "RAII lock types found (constructor reaches SimpleMutex::Lock, destructor reaches Unlock)", PLUGIN, bool(LT), witness=sorted(LT))
     for s in slots:
         t, d = stored["threadsafe"].get(s), stored["default"].get(s)
         ft, fd = prog.functions.get(t), prog.functions.get(d)
@@ -182,65 +237,39 @@ def check(ctx, run):
             continue
         run.analysed(ft)
         run.analysed(fd)
-        idx, ltype, decl = lock_decl_index(prog, ft)
-        if idx is None:
-            run.ob("R2", "slot %s" % s, ft.site, False, what="no RAII lock object (ctor reaching SimpleMutex::Lock, dtor reaching Unlock) is declared at the top level of the function stored by the thread-safe switch",
-                   witness=[render_stmt(ft, x) for x in top_stmts(ft)])
+        try:
+            et, rt_, endt, envt = slot_fold(prog, ft)
+            ed, rd_, endd, envd = slot_fold(prog, fd)
+            et0, _, endt0, _ = slot_fold(prog, ft, alloc_answer=0)
+            ed0, _, endd0, _ = slot_fold(prog, fd, alloc_answer=0)
+        except Unknown as u:
+            run.broke("C10.R2: the functions of slot %s cannot be folded: %s" % (s, u))
             continue
-        locked_fns.append(ft)
-        st = top_stmts(ft)
-        before = [x for x in st[:idx] if ft.calls(x)]
-
-        lock_sub = set()
-
-        def collect(n_):
-            lock_sub.add(n_["id"])
-            for ch in n_.get("c", []):
-                collect(ch)
-        if decl.get("init") is not None:
-            collect(decl["init"])      # calls made to compute the lock's constructor arguments belong to the lock
-
-        def signature(f, skip_types=()):
-            """per path: the calls made (callee, arguments in origin form with the function's parameters numbered) and how the path ends"""
-            pn = [q["name"] for q in f.params]
-
-            def norm(txt):
-                return re.sub(r"(?<![\w.>])[A-Za-z_]\w*(?!\w*\()", lambda m: "$%d" % pn.index(m.group(0)) if m.group(0) in pn else m.group(0), txt)
-            out = []
-            for p in enumerate_paths(f, inline=None):
-                seq = []
-                for c in path_calls(prog, f, p):
-                    if c.get("ctor") and c["ctor"]["qn"].split("::")[0] in skip_types:
-                        continue
-                    if skip_types and c["id"] in lock_sub:
-                        continue
-                    nm = prog.callee_name(f, c) or (c.get("ctor") or {}).get("qn") or "?"
-                    if nm.split("::")[0] in skip_types:
-                        continue
-                    if not f.args(c) and nm.split("::")[-1].startswith("get") and c.get("obj") is None:
-                        continue    # a parameterless accessor: it reappears in the receiver/argument renderings below
-                    recv = norm(rx(f, f.node(c["obj"]))) if c.get("obj") is not None else None
-                    seq.append((nm, recv, tuple(norm(rx(f, a)) for a in f.args(c))))
-                rv = norm(rx(f, f.node(p.ret["value"]))) if p.ret is not None and p.ret.get("value") is not None else None
-                out.append((tuple(seq), p.end, rv, tuple(sorted((norm(k), v) for k, v in origin_val(f, p).items()))))
-            return sorted(out, key=repr)
-        sig_t, sig_d = signature(ft, skip_types=(ltype,)), signature(fd)
-        delegates = all(len(seq) == 1 and seq[0] == (fd.qn, None, tuple("$%d" % i for i in range(len(fd.params)))) and (rv is None or rv.startswith(fd.name + "(")) for seq, end, rv, val in sig_t) and bool(sig_t)
-        same = sig_t == sig_d
-        ok = not before and (same or delegates)
+        locks = [e for e in et if e[0] == "lock"]
+        unlocked = [e for e in et if e[0] in ("getter", "detector") and not e[-1]]
+        work = lambda ev_: [(e[0],) + tuple(e[1:-1]) for e in ev_ if e[0] in ("getter", "detector")]
         why = ""
-        if before:
-            why = "call(s) before the lock is taken: %s" % [render_stmt(ft, x) for x in before]
-        elif not ok:
+        if not locks:
+            why = "no RAII lock object (ctor reaching SimpleMutex::Lock, dtor reaching Unlock) is alive in the function stored by the thread-safe switch"
+        elif unlocked:
+            why = "call(s) before the lock is taken or after it was released: %s" % [e[1] for e in unlocked]
+        elif len(locks) != 1:
+            why = "the lock is taken %d times" % len(locks)
+        elif work(et) != work(ed) or (endt, rt_) != (endd, rd_) or work(et0) != work(ed0) or endt0 != endd0:
             why = "body differs from the unlocked sibling %s" % fd.qn
-        run.ob("R2", "slot %s" % s, ft.site, ok, witness={"threadsafe": [list(map(str, x[:3])) for x in sig_t], "default": [list(map(str, x[:3])) for x in sig_d], "lock": ltype, "delegates_to_sibling": delegates}, what=why)
+        if locks:
+            locked_fns.append(ft)
+        run.ob("R2", "slot %s" % s, ft.site, not why, witness={"threadsafe": [list(map(str, e)) for e in et], "default": [list(map(str, e)) for e in ed]}, what=why)
 
     # any other function using the RAII type is also 'locked'
     # ---------------- R3 --------------------------------------------------
+    # the functions that hold the lock: wherever an RAII lock object is declared at top level (the slot functions themselves, or helpers they delegate to)
+    locked_fns = [f for f in prog.functions.values() if f.file.startswith("src/") and lock_decl_index(prog, f)[0] is not None]
     ltypes = set()
     for ft in locked_fns:
         idx, ltype, decl = lock_decl_index(prog, ft)
-        ltypes.add(ltype)
+        if ltype:
+            ltypes.add(ltype)
     WANT_MUTEX = "MemoryLeakWarningPlugin::getGlobalDetector()->getMutex()"
     for lt in sorted(ltypes):
         if lt == "ScopedMutexLock":
@@ -358,17 +387,43 @@ def check(ctx, run):
             return True
         return False
 
-    all_locked = []
-    for f in prog.functions.values():
-        if f.file.startswith("src/") and lock_decl_index(prog, f)[0] is not None:
-            all_locked.append(f)
-    for f in sorted(all_locked, key=lambda x: x.qn):
-        run.analysed(f)
-        res = reach(prog, [f.mn], sink, cut=cut)
-        if not res:
-            run.ob("R4", "no longjmp reachable while the lock is held", f.site, True, witness="call graph closed under CHA + slots: no path to longjmp")
+    def lock_holders(f, depth=2, seen=None):
+        """the function itself and the same-file free helpers it delegates to that declare an RAII lock at top level"""
+        seen = seen if seen is not None else set()
+        out = []
+        if f.mn in seen:
+            return out
+        seen.add(f.mn)
+        if lock_decl_index(prog, f)[0] is not None:
+            out.append(f)
+        if depth > 0:
+            for c in f.calls():
+                cc = c.get("callee")
+                h = prog.functions.get(cc["mn"]) if cc and cc.get("dispatch") == "direct" else None
+                if h is not None and h.file == f.file and not h.cls and h.kind == "function":
+                    out += lock_holders(h, depth - 1, seen)
+        return out
+    for s_ in slots:
+        ft = prog.functions.get(stored["threadsafe"].get(s_))
+        if ft is None:
+            continue
+        holders = lock_holders(ft)
+        run.analysed(ft)
+        site = "%s:slot %s" % (PLUGIN, s_)
+        worst = None
+        for f in holders:
+            run.analysed(f)
+            res = reach(prog, [f.mn], sink, cut=cut)
+            if res:
+                lab, path = min(res, key=lambda r: len(r[1]))
+                if worst is None or len(path) < len(worst[1]):
+                    worst = (lab, path, len(res))
+        if not holders:
+            run.ob("R4", "no longjmp reachable while the lock is held", site, False, what="no function holding the lock found for the thread-safe function of the slot")
+        elif worst is None:
+            run.ob("R4", "no longjmp reachable while the lock is held", site, True, witness="call graph closed under CHA + slots: no path to longjmp from %s" % [f.qn for f in holders])
         else:
-            lab, path = min(res, key=lambda r: len(r[1]))
-            run.ob("R4", "no longjmp reachable while the lock is held", f.site, False,
+            lab, path, cnt = worst
+            run.ob("R4", "no longjmp reachable while the lock is held", site, False,
                    witness=[" -> ".join("%s{%s}" % (a, b) for a, b, c in path)],
-                   what="%s reachable with the detector lock held (%d call paths; shortest shown)" % (lab, len(res)))
+                   what="%s reachable with the detector lock held (%d call paths; shortest shown)" % (lab, cnt))
